@@ -192,6 +192,21 @@ Definition legacy_methods (k : ckind) (cfg : config) : list cmethod :=
   else [].
 Definition client_methods (k : ckind) (cfg : config) : list cmethod := client_mixin_methods cfg ++ legacy_methods k cfg.
 
+(* ---- template text: the isinstance(request, dict) branch of every mixin and legacy method (keyword expansion of the dict), on
+   both clients: the request class a dict is coerced to (message full name) ---- *)
+Definition COERCE_TMPL : list (string * string) :=
+  [ ("ListOperations", "google.longrunning.ListOperationsRequest"); ("GetOperation", "google.longrunning.GetOperationRequest");
+    ("DeleteOperation", "google.longrunning.DeleteOperationRequest"); ("CancelOperation", "google.longrunning.CancelOperationRequest");
+    ("WaitOperation", "google.longrunning.WaitOperationRequest");
+    ("SetIamPolicy", "google.iam.v1.SetIamPolicyRequest"); ("GetIamPolicy", "google.iam.v1.GetIamPolicyRequest");
+    ("TestIamPermissions", "google.iam.v1.TestIamPermissionsRequest");
+    ("GetLocation", "google.cloud.location.GetLocationRequest"); ("ListLocations", "google.cloud.location.ListLocationsRequest") ].
+Definition coerce_of (n : string) : option string := assoc n COERCE_TMPL.
+(* (python method, type a dict request is coerced to) for every mixin / legacy method of a client, in definition order *)
+Definition client_coercions (k : ckind) (cfg : config) : list (string * option string) :=
+  map (fun t => (snake (t_name t), coerce_of (t_name t))) (filter (fun t => tmpl_on cfg (t_name t) (t_group t)) CLIENT_TMPL)
+  ++ (if c_add_iam cfg then map (fun n => (snake n, coerce_of n)) LEGACY else []).
+
 (* ---- the _wrapped_methods table of a transport (base.py.j2 and prep_wrapped_messages_async_method):
    the service's own rpcs (transport-safe snake names, given) then one key per mixin method ---- *)
 Definition mixin_table_keys (cfg : config) : list string := map snake (mixin_names cfg).
